@@ -216,16 +216,25 @@ def run(ctx):
             for eps in ((1, 3) if ctx.tier == "thorough" else
                         ((1,) if (nsh + i) % 2 else (3,))):
                 tasks.append((comp, eps, nsh, "ab"[(nsh + i) % 2]))
-    with core.pool() as ex:
-        tot = 0
-        for r in ex.map(e2e_case, tasks):
-            if r["harness"]:
-                ctx.harness_error(f"{r['args']}: {r['harness']}")
-                continue
-            tot += r["cases"]
-            for sym, msg in r["bad"]:
-                ctx.violation({"engine": "e2e", "symptom": sym}, msg,
-                              {"kind": "e2e", "args": r["args"]})
+    tot = 0
+    # a deadlock inside the extension holds the GIL: no in-process watchdog
+    # can fire, so the worker pool itself is watched
+    for t, r in core.run_with_watchdog(e2e_case, tasks, 120,
+                                         stop_after_hang=True):
+        if r.get("hung"):
+            ctx.violation({"engine": "e2e", "symptom": "hang"},
+                          f"rust reader {list(t)}: the worker process did not "
+                          f"come back within 120 s (dead-locked inside the "
+                          f"extension while iterating / abandoning / "
+                          f"closing)", {"kind": "e2e", "args": list(t)})
+            continue
+        if r["harness"]:
+            ctx.harness_error(f"{r['args']}: {r['harness']}")
+            continue
+        tot += r["cases"]
+        for sym, msg in r["bad"]:
+            ctx.violation({"engine": "e2e", "symptom": sym}, msg,
+                          {"kind": "e2e", "args": r["args"]})
     ctx.part("end to end (extension rebuilt from /repo/rust): compression x "
              "shards x eps x layout x threads x shuffle, abandonment at "
              "every position", datasets=len(tasks), passes=tot)
